@@ -70,17 +70,22 @@ static int r_c300(int argc, char **argv, char *, int)
     return 42;
 }
 static const std::string NAME300(300, 'c'); // a 300-character command name, only in the tables of the long sub-checks
-static const struct mshell_command ML_BOTH[] = {{"a", m_a, "first"}, {"ab", m_ab, nullptr}, {NAME300.c_str(), m_c300, nullptr}, {nullptr, nullptr, nullptr}};
-static const struct mshell_command ML_T2[] = {{"ab", m_ab, nullptr}, {NAME300.c_str(), m_c300, "long"}, {nullptr, nullptr, nullptr}};
-static const struct rshell_command RL_BOTH[] = {{"a", r_a, "first"}, {"ab", r_ab, nullptr}, {NAME300.c_str(), r_c300, nullptr}, {nullptr, nullptr, nullptr}};
-static const struct rshell_command RL_T2[] = {{"ab", r_ab, nullptr}, {NAME300.c_str(), r_c300, "long"}, {nullptr, nullptr, nullptr}};
-static const struct mshell_command M_BOTH[] = {{"a", m_a, "first"}, {"ab", m_ab, nullptr}, {nullptr, nullptr, nullptr}};
-static const struct mshell_command M_T1[] = {{"a", m_a, "first"}, {nullptr, nullptr, nullptr}};
-static const struct mshell_command M_T2[] = {{"ab", m_ab, nullptr}, {nullptr, nullptr, nullptr}};
+// command names are held like the inputs: exactly sized, the terminator is the last accessible byte
+// (slot 7 of the guard pool is reserved for them, they live for the whole run)
+static const char *N_A = (new CS("a", 7))->p;
+static const char *N_AB = (new CS("ab", 7))->p;
+static const char *N_C300 = (new CS(NAME300, 7))->p;
+static const struct mshell_command ML_BOTH[] = {{N_A, m_a, "first"}, {N_AB, m_ab, nullptr}, {N_C300, m_c300, nullptr}, {nullptr, nullptr, nullptr}};
+static const struct mshell_command ML_T2[] = {{N_AB, m_ab, nullptr}, {N_C300, m_c300, "long"}, {nullptr, nullptr, nullptr}};
+static const struct rshell_command RL_BOTH[] = {{N_A, r_a, "first"}, {N_AB, r_ab, nullptr}, {N_C300, r_c300, nullptr}, {nullptr, nullptr, nullptr}};
+static const struct rshell_command RL_T2[] = {{N_AB, r_ab, nullptr}, {N_C300, r_c300, "long"}, {nullptr, nullptr, nullptr}};
+static const struct mshell_command M_BOTH[] = {{N_A, m_a, "first"}, {N_AB, m_ab, nullptr}, {nullptr, nullptr, nullptr}};
+static const struct mshell_command M_T1[] = {{N_A, m_a, "first"}, {nullptr, nullptr, nullptr}};
+static const struct mshell_command M_T2[] = {{N_AB, m_ab, nullptr}, {nullptr, nullptr, nullptr}};
 static const struct mshell_command *const M_TABLES[] = {M_T1, M_T2, nullptr};
-static const struct rshell_command R_BOTH[] = {{"a", r_a, "first"}, {"ab", r_ab, nullptr}, {nullptr, nullptr, nullptr}};
-static const struct rshell_command R_T1[] = {{"a", r_a, "first"}, {nullptr, nullptr, nullptr}};
-static const struct rshell_command R_T2[] = {{"ab", r_ab, nullptr}, {nullptr, nullptr, nullptr}};
+static const struct rshell_command R_BOTH[] = {{N_A, r_a, "first"}, {N_AB, r_ab, nullptr}, {nullptr, nullptr, nullptr}};
+static const struct rshell_command R_T1[] = {{N_A, r_a, "first"}, {nullptr, nullptr, nullptr}};
+static const struct rshell_command R_T2[] = {{N_AB, r_ab, nullptr}, {nullptr, nullptr, nullptr}};
 static const struct rshell_command_table R_TABLES[] = {{R_T1, 0}, {R_T2, 1}, {nullptr, 0}}; // second table drops argv[0]
 static const struct mshell_command *const ML_TABLES[] = {M_T1, ML_T2, nullptr};
 static const struct rshell_command_table RL_TABLES[] = {{R_T1, 0}, {RL_T2, 1}, {nullptr, 0}};
